@@ -10,6 +10,7 @@ lean/MxlVerif/MxlVerif/Generated/C08Tables.lean:
   unknownCallRaises                      the fall-through of _convert_direct_call/_convert_library_call raises
   arityChecked                           UNARY / BINARY branches check len(node.args)
   logWithBase                            the unary branch gives AST_FUNCTION_LOG its base 10 as first child
+  binaryNumpyOnly                        BINARY is not consulted for `math.<name>` calls
   iaSetter                               the libsbml setter used for the symbol of an initial assignment
 
 Anything outside the shapes recognised here raises Unsupported: the run then reports the proof side as broken
@@ -259,6 +260,20 @@ def _log_with_base(tree: ast.Module) -> bool:
     return True
 
 
+def _binary_numpy_only(tree: ast.Module) -> bool:
+    """the BINARY branch of _convert_library_call is guarded by `parent != "math"`"""
+    fn = _fn(tree, "_convert_library_call")
+    tests = [ast.unparse(n.test) for n in ast.walk(fn) if isinstance(n, ast.If) and "BINARY.get(" in ast.unparse(n.test)]
+    if len(tests) != 1:
+        raise Unsupported("_convert_library_call: BINARY branch")
+    t = tests[0]
+    if t == "(typ := BINARY.get(attr)) is not None":
+        return False
+    if t == "parent != 'math' and (typ := BINARY.get(attr)) is not None":
+        return True
+    raise Unsupported(f"_convert_library_call: BINARY test `{t}`")
+
+
 def _check_arity_def(tree: ast.Module) -> bool:
     try:
         fn = _fn(tree, "_check_arity")
@@ -320,6 +335,7 @@ def render(repo: Path) -> str:
         raise Unsupported("_check_arity is called but not defined as expected")
     setter = _ia_setter(tree)
     logbase = _log_with_base(tree)
+    bin_np = _binary_numpy_only(tree)
 
     def pair(kv):
         return f'("{kv[0]}", {kv[1]})'
@@ -353,6 +369,7 @@ def nonnegSide : Side := {nonneg}
 def unknownCallRaises : Bool := {str(r1).lower()}
 def arityChecked : Bool := {str(a1).lower()}
 def logWithBase : Bool := {str(logbase).lower()}
+def binaryNumpyOnly : Bool := {str(bin_np).lower()}
 def iaSetter : String := "{setter}"
 
 end Mxl.C08.Gen
